@@ -320,5 +320,47 @@ func (m *Model) RunEmit(s *Sink, rule string) {
 		default:
 			s.Violation(rule, key, m.Pos(st.fn.Pos()), "%s on three elements with texts <A>, <B>, <C> yields %q: an element's output is dropped, duplicated or out of order (text between constructs would be lost)", fnKey(st.fn), got)
 		}
+		// at the top level of a page there is no loop to leave: a break / continue marker among the statement results
+		// (a stray @break, a truthy @breakIf outside any loop) prints nothing and what follows it is still emitted
+		if strings.HasSuffix(st.key, ".evalProgram") {
+			for _, marker := range []string{"Break", "Continue"} {
+				mt := m.namedType("object", marker)
+				if mt == nil {
+					continue
+				}
+				k2 := st.key + "|text after a stray " + strings.ToLower(marker) + " marker is still emitted"
+				elems2, txt2 := mkElems()
+				mk := &iStruct{typ: mt, fields: map[int]any{}}
+				txt2[mk] = ""
+				elems2[1] = mk
+				ip2 := &Interp{m: m, useGlobals: true}
+				ip2.call = func(c *ssa.Call, args []any) (any, bool) {
+					if isEvalCall(m, c) && len(args) >= 2 {
+						if n, ok := args[1].(*iStruct); ok {
+							return n.fields[-9], true
+						}
+						return nil, true
+					}
+					if c.Call.IsInvoke() && c.Call.Method.Name() == "String" && len(args) == 1 {
+						if o, ok := args[0].(*iStruct); ok {
+							if t, have := txt2[o]; have {
+								return constant.MakeString(t), true
+							}
+						}
+					}
+					return nil, false
+				}
+				res2, known2 := ip2.Run(st.fn, st.args(elems2))
+				got2, ok2 := textOf(res2, txt2)
+				switch {
+				case ip2.stuck != "" || !known2 || !ok2:
+					s.Undecided(rule, k2, m.Pos(st.fn.Pos()), "%s could not be evaluated with a %s marker among the results (%s)", fnKey(st.fn), marker, ip2.stuck)
+				case got2 == "<A><C>":
+					s.OK(rule, k2, m.Pos(st.fn.Pos()), "case evaluation: results <A>, %s marker, <C> give <A><C>", marker)
+				default:
+					s.Violation(rule, k2, m.Pos(st.fn.Pos()), "%s with the statement results <A>, a %s marker, <C> yields %q: a loop-control directive outside any loop cuts the rest of the page", fnKey(st.fn), strings.ToLower(marker), got2)
+				}
+			}
+		}
 	}
 }
